@@ -3,8 +3,10 @@
 A generated history (races, rollbacks, messages, own echoes, queued proposals, restarts, re-wrapped copies) is executed once as
 generated (the base run) and once more, command by command, with re-deliveries of ALREADY HANDLED events inserted at random
 places, each 1..3 times (the variant).  "Already handled" is decided on the implementation's own observations of the base run:
-the client has answered a delivery of that event before with something that is not a refusal, and its dedup record of the event
-(read off the client's last fingerprint) is Processed / ProcessedCommit / Failed / EpochInvalidated now.  The theorem leaves no
+the event HAS TAKEN EFFECT at the client before (a delivery of it was not refused and moved the client's projection; the echo of
+an own proposal counts, a `commit` answer without effect — `return_own_commit` for an own commit that is staged but not applied —
+does not), and the client's dedup record of the event (read off its last fingerprint) is Processed / ProcessedCommit / Failed /
+EpochInvalidated now.  The theorem leaves no
 room for a difference: every ORIGINAL command must answer the same and leave the same projection (epoch, MLS state token,
 members, group data, pending proposals, message rows) in both runs — but for the answers of original deliveries of an event that
 was inserted earlier at that client (the inserted call may have left a Failed record; their PROJECTION is still compared).
@@ -76,10 +78,18 @@ def plan(base, rng, density, max_copies=3):
         t = cmd.split()
         if c is not None:
             f = W.parse_fp(fp)
+            if t[0] == "deliver" and not W.is_refusal(res.split()[0]):
+                # "has taken effect there": the call was not refused AND it moved the projection (a stored message, an applied
+                # commit, a queued proposal, the own echo that confirms a message or merges the pending commit) — a `commit` answer
+                # WITHOUT effect (`return_own_commit` for an own commit that is staged but not applied: after a rollback restored the
+                # pending commit its echo is still to come) does not count; the echo of an own PROPOSAL never has an effect and counts
+                n = int(t[2])
+                ev = base.events.get(n, {})
+                moved = f is not None and last.get(c) is not None and W.proj(last[c]) != W.proj(f)
+                if moved or n in ok.get(c, ()) or (ev.get("kind") == "proposal" and ev.get("sender") == c):
+                    ok.setdefault(c, set()).add(n)
             if f is not None or fp in ("nogroup", "norecord"):
                 last[c] = f
-            if t[0] == "deliver" and not W.is_refusal(res.split()[0]):
-                ok.setdefault(c, set()).add(int(t[2]))
     return out, origin, inserted_before, n_ins, kinds
 
 def compare(base, variant, origin, inserted_before):
@@ -100,6 +110,45 @@ def compare(base, variant, origin, inserted_before):
         if pb != pv:
             return bi, f"`{cb}` leaves {pb} in the base run and {pv} in the run with the insertions"
     return None
+
+def inside_H(variants):
+    """the hypotheses of redelivery_invisible_multi evaluated ON THE MODEL for every insertion of every variant: the inserted
+    event is `handled` and `known` at the receiver where it is inserted, and every later ORIGINAL delivery of an inserted
+    (client, event) is of a `handled` event (`okIns`).  One driver run over all variants, with `handledq` query lines in front
+    of the deliveries concerned.  → stats"""
+    from . import common as C
+    text, queries = "", []          # queries: (variant id, 'ins' | 'later') in output order, interleaved with None for ordinary lines
+    for v, origin, ins_before in variants:
+        if getattr(v, "crashed", None) or not hasattr(v, "meta"):
+            continue
+        pos = [i for i, (c, _, _) in enumerate(v.trace) if c != "world"]      # my indices -> indices of v.trace
+        orig = {pos[vi]: ins for (vi, _), ins in zip(origin, ins_before) if vi < len(pos)}
+        unmodelled = {k for k, e in v.events.items() if e.get("unmodelled")}
+        for idx, line in W.model_input(v):
+            t = v.trace[idx][0].split()
+            if t[0] == "deliver" and int(t[2]) not in unmodelled:
+                if idx not in orig:
+                    text += f"handledq {t[1]} {t[2]}\n"; queries.append((v.id, "ins"))
+                elif (int(t[1]), int(t[2])) in orig[idx]:
+                    text += f"handledq {t[1]} {t[2]}\n"; queries.append((v.id, "later"))
+            text += line + "\n"; queries.append(None)
+    rc, out, err = C.run_lines([C.DRV, "world"], text)
+    st = {"inserted_modelled": 0, "inserted_handled_and_known": 0, "later_original_deliveries_of_inserted": 0, "later_handled": 0, "variants_inside_H": 0, "variants_modelled": 0}
+    per = {}
+    for q, o in zip(queries, out):
+        if q is None:
+            continue
+        vid, kind = q
+        ok = ("handled=1" in o) and (kind == "later" or "known=1" in o)
+        per.setdefault(vid, True)
+        per[vid] = per[vid] and ok
+        if kind == "ins":
+            st["inserted_modelled"] += 1; st["inserted_handled_and_known"] += ok
+        else:
+            st["later_original_deliveries_of_inserted"] += 1; st["later_handled"] += ok
+    st["variants_modelled"] = len(per)
+    st["variants_inside_H"] = sum(1 for x in per.values() if x)
+    return st
 
 def gen_bases(seed, n, tier, rng):
     """a third plain race histories, a third with the leave / proposal flow on, a third deep forks (rollbacks over several
@@ -125,7 +174,7 @@ def run(tier, seed):
     quick = tier == "quick"
     rng = random.Random(seed * 7919 + 17)
     bases = gen_bases(seed, 15 if quick else 150, tier, rng)
-    fails, worlds = [], []
+    fails, worlds, plans = [], [], []
     stats = {"bases": 0, "variants": 0, "insertions": 0, "equal": 0, "nondeterministic_bases": 0, "commands_compared": 0,
              "inserted_kinds": {}, "inserted_answers": {}, "bases_with_rollback": 0}
     for b in bases:
@@ -146,6 +195,7 @@ def run(tier, seed):
                 continue
             v = W.replay_cmds(cmds, f"{b.id}-v{v_i}")
             worlds.append(v)
+            plans.append((v, origin, ins_before))
             stats["variants"] += 1
             stats["insertions"] += n_ins
             stats["commands_compared"] += len(origin)
@@ -171,6 +221,7 @@ def run(tier, seed):
             what = f"world {v.id}: with re-deliveries of already handled events inserted, {d[1]}"
             fails.append({"kind": "oracle", "prop": "C07", "props": ["C07"], "signature": "redelivery-changes-later-call", "what": what[:900],
                           "replay_body": v.text(None, what[:300]) + "# --- the same script without the inserted re-deliveries ---\n" + b.text()})
+    stats["hypotheses_on_the_model"] = inside_H(plans)
     return fails, stats, worlds
 
 # ---- C06: a refused call never shows later (Props/C06.lean refused_calls_invisible_partial) ------------------------------
@@ -282,8 +333,8 @@ def engine_refused(ob, facts, failures, coverage, tier, seed):
     return ["refused-call pairs: the base history must be reproducible when replayed (histories whose unchanged replay differs from the base run are dropped and counted)"]
 
 RULE = ("insertion pairs: generated histories (races of 1..3 commits, rollbacks, re-wrapped copies, messages, own echoes, leave proposals, restarts; no timestamp ties) "
-        "executed as generated and once more with re-deliveries of already handled events (answered without refusal before, dedup record Processed / ProcessedCommit / "
-        "Failed / EpochInvalidated at the receiver now) inserted at random places, 1..3 copies each; every original command must answer the same and leave the same "
+        "executed as generated and once more with re-deliveries of already handled events (a delivery of it was not refused and moved the receiver's projection before, "
+        "dedup record Processed / ProcessedCommit / Failed / EpochInvalidated at the receiver now) inserted at random places, 1..3 copies each; every original command must answer the same and leave the same "
         "projection; non-trivial = a variant with at least one insertion; distinct by command list")
 
 def engine(ob, facts, failures, coverage, tier, seed):
